@@ -69,10 +69,13 @@ func generate(w *mon.W) {
 		case 6:
 			p = namedThenNarrowed(rng)
 		case 9:
-			if j%3 == 2 {
-				p = functionNamedKeys(j / 3)
-			} else {
-				p = renamedKeys(j - j/3)
+			switch j % 4 {
+			case 2:
+				p = functionNamedKeys(j / 4)
+			case 3:
+				p = sortedThenLimitedRight(j / 4)
+			default:
+				p = renamedKeys(j/4*2 + j%4)
 			}
 		case 10:
 			p = manyConditions(rng, 1+j%20)
@@ -105,10 +108,13 @@ func DirectedPipelines(seed int64, n int) []*Pipe {
 		j := i / 10
 		switch i % 10 {
 		case 9:
-			if j%3 == 2 {
-				out = append(out, functionNamedKeys(j/3))
-			} else {
-				out = append(out, renamedKeys(j-j/3))
+			switch j % 4 {
+			case 2:
+				out = append(out, functionNamedKeys(j/4))
+			case 3:
+				out = append(out, sortedThenLimitedRight(j/4))
+			default:
+				out = append(out, renamedKeys(j/4*2+j%4))
 			}
 		case 0:
 			out = append(out, twinJoins(rng))
@@ -163,6 +169,35 @@ func renamedKeys(form int) *Pipe {
 	case 1:
 		p.Ops = append(p.Ops, &Op{K: "project", Cols: []Col{bare("id"), bare("uid")}})
 	}
+	return p
+}
+
+// sortedThenLimitedRight: the right-hand side sorts, then does something that
+// starts a new SELECT, then limits: which rows it keeps depends on its sort.
+func sortedThenLimitedRight(form int) *Pipe {
+	mids := []func() *Op{
+		func() *Op { return &Op{K: "where", X: Bin(">=", Name("uid"), Num("0"))} },
+		func() *Op {
+			return &Op{K: "project", Cols: []Col{{Name: &Ident{Name: "k"}}, {Name: &Ident{Name: "uid"}}, {Name: &Ident{Name: "ub"}}}}
+		},
+		func() *Op { return &Op{K: "extend", Cols: []Col{{Name: &Ident{Name: "e1"}, X: Bin("+", Name("uid"), Num("1"))}}} },
+		func() *Op { return &Op{K: "where", X: Call("not", Call("isnull", Name("uid")))} },
+	}
+	sorts := []SortTerm{{X: Name("uid"), Dir: "desc"}, {X: Name("uid"), Dir: "asc"}, {X: Name("ub"), Dir: "desc", Nulls: "last"}, {X: Bin("-", Num("0"), Name("uid"))}}
+	st := sorts[form%len(sorts)]
+	terms := []SortTerm{st}
+	if form%len(sorts) == 2 {
+		terms = append(terms, SortTerm{X: Name("uid"), Dir: "asc"})
+	}
+	v := form / len(sorts)
+	right := &Pipe{Table: Ident{Name: "U"}, Ops: []*Op{{K: "sort", Terms: terms}, mids[v%len(mids)](), {K: "take", X: Num([]string{"1", "2", "3"}[(v/len(mids))%3])}}}
+	kind := []string{"", "inner", "leftouter", "innerunique"}[(v/12)%4]
+	p := &Pipe{Table: Ident{Name: "T"}}
+	if (v/48)%2 == 1 {
+		p.Ops = append(p.Ops, &Op{K: "where", X: Bin(">=", Name("id"), Num("0"))})
+	}
+	p.Ops = append(p.Ops, &Op{K: "join", Kind: kind, Right: right, Conds: []*E{Name("k")}})
+	p.Ops = append(p.Ops, &Op{K: "project", Cols: []Col{{Name: &Ident{Name: "id"}}, {Name: &Ident{Name: "uid"}}}})
 	return p
 }
 
